@@ -8,4 +8,5 @@ CONSTANTS
 VIEW View
 INVARIANT Inv
 PROPERTY StepProps
+PROPERTY GoalEmit
 CHECK_DEADLOCK FALSE
